@@ -11,104 +11,104 @@ PROPS = {
     "C01": {
         "pkg": "core", "level": "exploration",
         "quick": {"stages": [st("^TestC01", 2500)]},
-        "thorough": {"stages": [st("^TestC01", 15000, shards=16)],
-                     "fuzz": [{"target": "FuzzC01Serialize", "seconds": 90}]},
+        "thorough": {"stages": [st("^TestC01", 30000, shards=16, timeout=2400)],
+                     "fuzz": [{"target": "FuzzC01Serialize", "seconds": 120}]},
     },
     "C03": {
         "pkg": "core", "level": "exploration",
         "quick": {"stages": [st("^TestStore", 1200)]},
-        "thorough": {"stages": [st("^TestStore", 6000, shards=16, timeout=1800)]},
+        "thorough": {"stages": [st("^TestStore", 15000, shards=16, timeout=3000)]},
     },
     "C04": {
         "pkg": "core", "level": "exploration",
         "quick": {"stages": [st("^TestStore", 3000)]},
-        "thorough": {"stages": [st("^TestStore", 12000, shards=16, timeout=1800)]},
+        "thorough": {"stages": [st("^TestStore", 40000, shards=16, timeout=3000)]},
     },
     "C05": {
         "pkg": "core", "level": "exploration",
         "quick": {"stages": [st("^TestStore", 3000)]},
-        "thorough": {"stages": [st("^TestStore", 12000, shards=16, timeout=1800)]},
+        "thorough": {"stages": [st("^TestStore", 40000, shards=16, timeout=3000)]},
     },
     "C17": {
         "pkg": "handlers", "level": "exploration",
         "quick": {"stages": [st("^TestC17", 4000)]},
-        "thorough": {"stages": [st("^TestC17", 40000, shards=16)]},
+        "thorough": {"stages": [st("^TestC17", 150000, shards=16, timeout=3000)]},
     },
     "C18": {
         "pkg": "handlers", "level": "exploration",
         "quick": {"stages": [st("^TestC18", 3000)]},
-        "thorough": {"stages": [st("^TestC18", 30000, shards=12), st("^TestC18", 4000, shards=4, race=True)]},
+        "thorough": {"stages": [st("^TestC18", 100000, shards=12, timeout=3000), st("^TestC18", 10000, shards=4, race=True, timeout=3000)]},
     },
     "C19": {
         "pkg": "handlers", "level": "exploration",
         "quick": {"stages": [st("^TestC19", 1500)]},
-        "thorough": {"stages": [st("^TestC19", 12000, shards=12), st("^TestC19", 2000, shards=4, race=True)]},
+        "thorough": {"stages": [st("^TestC19", 30000, shards=12, timeout=3000), st("^TestC19", 4000, shards=4, race=True, timeout=3000)]},
     },
     "C08": {
         "pkg": "handlers", "level": "exploration",
         "quick": {"stages": [st("^TestMerge(C08C09|Regress)", 6000), st("^TestMergeFreeRunning", 1500)]},
-        "thorough": {"stages": [st("^TestMerge(C08C09|Regress)", 60000, shards=10), st("^TestMergeFreeRunning", 15000, shards=4), st("^TestMerge", 5000, shards=4, race=True)]},
+        "thorough": {"stages": [st("^TestMerge(C08C09|Regress)", 200000, shards=10, timeout=3000), st("^TestMergeFreeRunning", 40000, shards=4, timeout=3000), st("^TestMerge", 10000, shards=2, race=True, timeout=3000)]},
     },
     "C09": {
         "pkg": "handlers", "level": "exploration",
         "quick": {"stages": [st("^TestMerge(C08C09|Regress)", 6000), st("^TestMergeFreeRunning", 1500)]},
-        "thorough": {"stages": [st("^TestMerge(C08C09|Regress)", 60000, shards=10), st("^TestMergeFreeRunning", 15000, shards=4), st("^TestMerge", 5000, shards=4, race=True)]},
+        "thorough": {"stages": [st("^TestMerge(C08C09|Regress)", 200000, shards=10, timeout=3000), st("^TestMergeFreeRunning", 40000, shards=4, timeout=3000), st("^TestMerge", 10000, shards=2, race=True, timeout=3000)]},
     },
     "C06": {
         "pkg": "sqlite", "level": "exploration",
         "quick": {"stages": [st("^TestC06", 500)]},
-        "thorough": {"stages": [st("^TestC06", 1500, shards=16, timeout=1800)]},
+        "thorough": {"stages": [st("^TestC06", 4000, shards=16, timeout=3000)]},
     },
     "C14": {
         "pkg": "sqlite", "level": "fault_enumeration",
         "quick": {"stages": [st("^TestC14Fault", 150), st("^TestC14Reopen", 60), st("^TestC14LargeBatch", 4)]},
-        "thorough": {"stages": [st("^TestC14Fault", 800, shards=8, timeout=1800), st("^TestC14Reopen", 300, shards=5, timeout=1800), st("^TestC14LargeBatch", 25, shards=3, timeout=1800)]},
+        "thorough": {"stages": [st("^TestC14Fault", 1500, shards=8, timeout=3000), st("^TestC14Reopen", 600, shards=5, timeout=3000), st("^TestC14LargeBatch", 40, shards=3, timeout=3000)]},
     },
     "C12": {
         "pkg": "session", "level": "exploration",
         "quick": {"stages": [st("^TestC12", 500)]},
-        "thorough": {"stages": [st("^TestC12", 4000, shards=12), st("^TestC12", 600, shards=4, race=True)]},
+        "thorough": {"stages": [st("^TestC12", 6000, shards=12, timeout=3000), st("^TestC12", 800, shards=4, race=True, timeout=3000)]},
     },
     "C13": {
         "pkg": "session", "level": "exploration",
         "quick": {"stages": [st("^TestC13Termination", 600), st("^TestC13WebSocketSend", 3, shrinktime="40s"), st("^TestC13WebSocketCancel", 4, shrinktime="40s"), st("^TestC13RouterInboundClose", 150), st("^TestC13SQLiteBlockedInserter", 6)]},
-        "thorough": {"stages": [st("^TestC13Termination", 5000, shards=12), st("^TestC13Termination", 800, shards=3, race=True), st("^TestC13WebSocketSend", 20, shards=1, shrinktime="60s"), st("^TestC13WebSocketCancel", 30, shards=1, shrinktime="60s"), st("^TestC13RouterInboundClose", 3000, shards=2), st("^TestC13SQLiteBlockedInserter", 60, shards=1)]},
+        "thorough": {"stages": [st("^TestC13Termination", 15000, shards=10, timeout=3000), st("^TestC13Termination", 2000, shards=2, race=True, timeout=3000), st("^TestC13WebSocketSend", 20, shards=1, shrinktime="60s"), st("^TestC13WebSocketCancel", 30, shards=1, shrinktime="60s"), st("^TestC13RouterInboundClose", 3000, shards=2), st("^TestC13SQLiteBlockedInserter", 60, shards=1)]},
     },
     "C20": {
         "pkg": "core", "level": "exploration",
         "quick": {"stages": [st("^TestC20", 3000)]},
-        "thorough": {"stages": [st("^TestC20", 40000, shards=8)]},
+        "thorough": {"stages": [st("^TestC20", 200000, shards=8, timeout=3000)]},
     },
     "C16": {
         "pkg": "handlers", "level": "exploration",
         "quick": {"stages": [st("^TestC16", 800), st("^TestC16", 300, pkg="sqlite")]},
-        "thorough": {"stages": [st("^TestC16", 6000, shards=10), st("^TestC16", 2000, shards=6, pkg="sqlite")]},
+        "thorough": {"stages": [st("^TestC16", 20000, shards=10, timeout=3000), st("^TestC16", 5000, shards=6, pkg="sqlite", timeout=3000)]},
     },
     "C07": {
         "pkg": "handlers", "level": "exploration",
         "quick": {"stages": [st("^TestC07Sequential", 600), st("^TestC07Concurrent", 600), st("^TestC07Backpressure", 150)]},
-        "thorough": {"stages": [st("^TestC07Sequential", 6000, shards=6), st("^TestC07Concurrent", 6000, shards=6), st("^TestC07Concurrent", 1500, shards=2, race=True), st("^TestC07Backpressure", 1000, shards=2)]},
+        "thorough": {"stages": [st("^TestC07Sequential", 10000, shards=6, timeout=3000), st("^TestC07Concurrent", 12000, shards=5, timeout=3000), st("^TestC07Concurrent", 2500, shards=2, race=True, timeout=3000), st("^TestC07Backpressure", 1500, shards=3, timeout=3000)]},
     },
     "C15": {
         "pkg": "core", "level": "exploration",
         "quick": {"stages": [st("^TestC15Linearizable", 500), st("^TestC15Stress", 60), st("^TestC15", 40, race=True)]},
-        "thorough": {"stages": [st("^TestC15Linearizable", 5000, shards=8), st("^TestC15Stress", 400, shards=4), st("^TestC15", 400, shards=4, race=True)]},
+        "thorough": {"stages": [st("^TestC15Linearizable", 8000, shards=8, timeout=3000), st("^TestC15Stress", 600, shards=4, timeout=3000), st("^TestC15", 500, shards=4, race=True, timeout=3000)]},
     },
     "C10": {
         "pkg": "core", "level": "exploration",
         "quick": {"stages": [st("^TestC10", 15000)]},
-        "thorough": {"stages": [st("^TestC10", 150000, shards=16)],
-                     "fuzz": [{"target": "FuzzC10Decode", "seconds": 120}]},
+        "thorough": {"stages": [st("^TestC10", 400000, shards=16, timeout=3000)],
+                     "fuzz": [{"target": "FuzzC10Decode", "seconds": 180}]},
     },
     "C11": {
         "pkg": "core", "level": "exploration",
         "quick": {"stages": [st("^TestC11", 12000)]},
-        "thorough": {"stages": [st("^TestC11", 120000, shards=16)],
-                     "fuzz": [{"target": "FuzzC11Admission", "seconds": 90}]},
+        "thorough": {"stages": [st("^TestC11", 300000, shards=16, timeout=3000)],
+                     "fuzz": [{"target": "FuzzC11Admission", "seconds": 150}]},
     },
     "C02": {
         "pkg": "core", "level": "exploration",
         "quick": {"stages": [st("^TestC02", 6000)]},
-        "thorough": {"stages": [st("^TestC02", 60000, shards=16)]},
+        "thorough": {"stages": [st("^TestC02", 400000, shards=16, timeout=2400)]},
     },
 }
